@@ -125,6 +125,59 @@ let bls_agg (t : bls_tables) (pks : n list list) : n list =
   | Some a -> bytes_of_string a
   | None -> incr missing_agg; bytes_of_string (String.make 48 '\xee')
 
+(* ---------- EpochsContext dump vs a view (the Spec's, or the projection of the Impl model's context) ---------- *)
+(* returns the names of the differing fields, in file order of the checks *)
+let compare_view (dir : string) (ev : epc_view) (file : string) : string list =
+  let tbl = Hashtbl.create 64 in
+  List.iter (fun l -> match split_ws l with k :: rest -> Hashtbl.add tbl k rest | [] -> ()) (read_lines (Filename.concat dir file));
+  let ints l = String.concat " " (List.map string_of_n l) in
+  let bad = ref [] in
+  let expect key (got : string list option) (want : string) =
+    match got with
+    | None -> if want <> "" then bad := (key ^ ":missing") :: !bad
+    | Some g -> if String.concat " " g <> want then bad := key :: !bad in
+  expect "current_epoch" (Hashtbl.find_opt tbl "current_epoch") (string_of_n ev.ev_current_epoch);
+  List.iteri (fun k name ->
+      expect (name ^ "_active") (Hashtbl.find_opt tbl (name ^ "_active")) (ints (List.nth ev.ev_active k));
+      let comms = List.nth ev.ev_committees k in
+      let golines = Hashtbl.find_all tbl (name ^ "_committee") in
+      List.iteri (fun s per_slot ->
+          List.iteri (fun ci members ->
+              let key = Printf.sprintf "%d %d" s ci in
+              let g = List.find_opt (fun l -> match l with a :: b :: _ -> (a ^ " " ^ b) = key | _ -> false) golines in
+              match g with
+              | Some (_ :: _ :: rest) -> if String.concat " " rest <> ints members then bad := (name ^ "_committee " ^ key) :: !bad
+              | _ -> bad := (name ^ "_committee " ^ key ^ ":missing") :: !bad) per_slot) comms;
+      let count = List.fold_left (fun a l -> a + List.length l) 0 comms in
+      if List.length golines <> count then bad := (name ^ "_committee:count") :: !bad)
+    ["prev"; "cur"; "next"];
+  (match Hashtbl.find_opt tbl "proposers" with
+   | Some g ->
+       let w = List.map (fun o -> match o with Some p -> string_of_n p | None -> "?") ev.ev_proposers in
+       if g <> w then bad := "proposers" :: !bad
+   | None -> bad := "proposers:missing" :: !bad);
+  expect "effective_balances" (Hashtbl.find_opt tbl "effective_balances") (ints ev.ev_effective_balances);
+  expect "total_active_stake" (Hashtbl.find_opt tbl "total_active_stake") (string_of_n ev.ev_total_active_stake);
+  (match ev.ev_sync_current with Some l -> expect "sync_current" (Hashtbl.find_opt tbl "sync_current") (ints l) | None -> ());
+  (match ev.ev_sync_next with Some l -> expect "sync_next" (Hashtbl.find_opt tbl "sync_next") (ints l) | None -> ());
+  List.rev !bad
+
+(* Impl model only: a nil sync committee of the model (pre-altair) must be absent from the dump too; `pubkey I 0x..` lines
+   (present in some dumps) against the list the model's pubkey cache denotes *)
+let compare_impl_extra (dir : string) (ev : epc_view) (pubkeys : n list list) (file : string) : string list =
+  let bad = ref [] in
+  let pk = Array.of_list (List.map (fun b -> hex_of_string (string_of_bytes b)) pubkeys) in
+  List.iter (fun l ->
+      match split_ws l with
+      | ["pubkey"; i; v] ->
+          let i = int_of_string i in
+          let want = if i < Array.length pk then "0x" ^ pk.(i) else "-" in
+          if v <> want && not (List.mem "pubkeys" !bad) then bad := "pubkeys" :: !bad
+      | "sync_current" :: _ -> if ev.ev_sync_current = None then bad := "sync_current:nil-in-model" :: !bad
+      | "sync_next" :: _ -> if ev.ev_sync_next = None then bad := "sync_next:nil-in-model" :: !bad
+      | _ -> ()) (read_lines (Filename.concat dir file));
+  List.rev !bad
+
 (* ---------- main: replay steps.txt ---------- *)
 let fork_of_string = function
   | "phase0" -> Phase0 | "altair" -> Altair | "bellatrix" -> Bellatrix | "capella" -> Capella | "deneb" -> Deneb
@@ -157,9 +210,25 @@ let () =
   let env = mk_env cfg hash (bls_verify1 bls) (bls_fav bls) (bls_agg bls) engine in
   let states : (string, fork * string) Hashtbl.t = Hashtbl.create 100 in
   let blocks : (string, fork * string) Hashtbl.t = Hashtbl.create 100 in
+  (* state id -> the context of the IMPLEMENTATION model (Beacon/Impl/Epc.v) that accompanies that state: carried along
+     the honest live-context steps by epc_process_slots / epc_state_transition, seeded by new_epochs_context.
+     Contexts are immutable values, so EpochsContext.Clone (branch= records) is sharing the entry.
+     impl_failed: the model's context operation failed on a step on which Go and the Spec succeeded (line, how). *)
+  let impl_epc : (string, epc) Hashtbl.t = Hashtbl.create 100 in
+  let impl_failed : (string, int * string) Hashtbl.t = Hashtbl.create 10 in
+  let impl_steps = ref 0 in
+  let impl_store (post : string) (lineno : int) (res : result) (r : epc_run) =
+    (match r with EROk _ -> incr impl_steps | _ -> ());
+    match r, res with
+    | EROk e, _ -> Hashtbl.replace impl_epc post e; Hashtbl.remove impl_failed post
+    | ERFail tag, ROk _ -> Hashtbl.remove impl_epc post; Hashtbl.replace impl_failed post (lineno, tag)
+    | _, _ -> Hashtbl.remove impl_epc post in
+  let is_id (post : string) = post <> "ERR" && post <> "PANIC" in
   let blob f = read_file (Filename.concat dir f) in
   let nok = ref 0 and nbad = ref 0 and nskip = ref 0 in
+  let cur_want = ref true in   (* false while replaying the steps before a single requested `epc` record (context tracking only) *)
   let report lineno ok detail =
+    if not !cur_want then () else
     if ok then (incr nok; Printf.printf "OK %d %s\n" lineno detail)
     else (incr nbad; Printf.printf "MISMATCH %d %s\n" lineno detail) in
   let judge lineno (res : result) (go_post : string) (what : string) =
@@ -184,9 +253,17 @@ let () =
                 report lineno false (Printf.sprintf "%s post-state differs in: %s" what (String.concat "," d))
         end in
   let lines = read_lines (Filename.concat dir "steps.txt") in
+  (* a single requested `epc` record needs the Impl context carried up to it: the steps before it are run silently *)
+  let track_upto = match only with
+    | Some k -> (match List.nth_opt lines (k - 1) with
+                 | Some l -> (match split_ws l with "epc" :: _ -> k | _ -> 0)
+                 | None -> 0)
+    | None -> 0 in
   List.iteri (fun i line ->
       let lineno = i + 1 in
       let want = match only with Some k -> k = lineno | None -> true in
+      let track = lineno < track_upto in
+      cur_want := want;
       match split_ws line with
       | [] -> ()
       | tok :: _ when String.length tok > 0 && tok.[0] = '#' -> ()
@@ -206,19 +283,34 @@ let () =
                 | None -> report lineno false "stateroot model cannot decode state"
               end) stags
       | ["blk"; id; fk; file] -> Hashtbl.replace blocks id (fork_of_string fk, blob file)
-      | "slots" :: pre :: target :: post :: _stags when want ->
+      | "slots" :: pre :: target :: post :: _stags when want || track ->
           (match Hashtbl.find_opt states pre with
            | None -> report lineno false "slots: unknown pre id"
            | Some (f, b) ->
                engine_verdict := true;
-               judge lineno (run_slots env f (bytes_of_string b) (n_of_decimal target)) post "slots")
-      | "trans" :: pre :: blk :: validate :: eng :: post :: _tags when want ->
+               let res =
+                 if is_id post && not (List.mem "ctx=fresh" _stags) then begin
+                   (* Go ran this with the long-lived context and succeeded: the Impl context goes along (one pass with the
+                      Spec's computation; fst = run_slots by EpcRun.run_epc_impl_slots_spec) *)
+                   let (res, r) = run_epc_impl_slots env f (bytes_of_string b) (Hashtbl.find_opt impl_epc pre) (n_of_decimal target) in
+                   impl_store post lineno res r; res
+                 end else run_slots env f (bytes_of_string b) (n_of_decimal target) in
+               judge lineno res post "slots")
+      | "trans" :: pre :: blk :: validate :: eng :: post :: _tags when want || track ->
           (match Hashtbl.find_opt states pre, Hashtbl.find_opt blocks blk with
            | Some (f, b), Some (bf, bb) ->
                (* engine=none means spec.ExecutionEngine is nil: nothing approves a payload *)
                engine_verdict := (eng = "valid");
                engine_seen := [];
-               let res = run_transition env f (bytes_of_string b) bf (bytes_of_string bb) (validate = "1") in
+               let honest_live =
+                 is_id post && not (List.mem "ctx=fresh" _tags)
+                 && (List.mem "kind=honest" _tags || not (List.exists (fun t -> String.length t > 5 && String.sub t 0 5 = "kind=") _tags)) in
+               let res =
+                 if honest_live then begin
+                   (* fst = run_transition by EpcRun.run_epc_impl_trans_spec *)
+                   let (res, r) = run_epc_impl_trans env f (bytes_of_string b) (Hashtbl.find_opt impl_epc pre) bf (bytes_of_string bb) (validate = "1") in
+                   impl_store post lineno res r; res
+                 end else run_transition env f (bytes_of_string b) bf (bytes_of_string bb) (validate = "1") in
                let seen = !engine_seen in
                last_trans := Some (lineno, bf);
                let why = match res with
@@ -266,7 +358,8 @@ let () =
            | ROk _ when valid <> "-" ->
                report lineno ((valid = "1") = v) (Printf.sprintf "genesis-validity spec=%b go=%s" v valid)
            | _ -> ())
-      | "epc" :: sid :: live :: fresh :: _etags when want ->
+      | "epc" :: sid :: live :: fresh :: _etags when want || track ->
+          if want then
           (match Hashtbl.find_opt states sid with
            | None -> report lineno false "epc: unknown state id"
            | Some (f, b) ->
@@ -274,40 +367,44 @@ let () =
                | None -> report lineno false "epc: model cannot decode state"
                | Some ev ->
                    let check file label =
-                     let tbl = Hashtbl.create 64 in
-                     List.iter (fun l -> match split_ws l with k :: rest -> Hashtbl.add tbl k rest | [] -> ()) (read_lines (Filename.concat dir file));
-                     let ints l = String.concat " " (List.map string_of_n l) in
-                     let bad = ref [] in
-                     let expect key (got : string list option) (want : string) =
-                       match got with
-                       | None -> if want <> "" then bad := (key ^ ":missing") :: !bad
-                       | Some g -> if String.concat " " g <> want then bad := key :: !bad in
-                     expect "current_epoch" (Hashtbl.find_opt tbl "current_epoch") (string_of_n ev.ev_current_epoch);
-                     List.iteri (fun k name ->
-                         expect (name ^ "_active") (Hashtbl.find_opt tbl (name ^ "_active")) (ints (List.nth ev.ev_active k));
-                         let comms = List.nth ev.ev_committees k in
-                         let golines = Hashtbl.find_all tbl (name ^ "_committee") in
-                         List.iteri (fun s per_slot ->
-                             List.iteri (fun ci members ->
-                                 let key = Printf.sprintf "%d %d" s ci in
-                                 let g = List.find_opt (fun l -> match l with a :: b :: _ -> (a ^ " " ^ b) = key | _ -> false) golines in
-                                 match g with
-                                 | Some (_ :: _ :: rest) -> if String.concat " " rest <> ints members then bad := (name ^ "_committee " ^ key) :: !bad
-                                 | _ -> bad := (name ^ "_committee " ^ key ^ ":missing") :: !bad) per_slot) comms;
-                         let count = List.fold_left (fun a l -> a + List.length l) 0 comms in
-                         if List.length golines <> count then bad := (name ^ "_committee:count") :: !bad)
-                       ["prev"; "cur"; "next"];
-                     (match Hashtbl.find_opt tbl "proposers" with
-                      | Some g ->
-                          let w = List.map (fun o -> match o with Some p -> string_of_n p | None -> "?") ev.ev_proposers in
-                          if g <> w then bad := "proposers" :: !bad
-                      | None -> bad := "proposers:missing" :: !bad);
-                     expect "effective_balances" (Hashtbl.find_opt tbl "effective_balances") (ints ev.ev_effective_balances);
-                     expect "total_active_stake" (Hashtbl.find_opt tbl "total_active_stake") (string_of_n ev.ev_total_active_stake);
-                     (match ev.ev_sync_current with Some l -> expect "sync_current" (Hashtbl.find_opt tbl "sync_current") (ints l) | None -> ());
-                     (match ev.ev_sync_next with Some l -> expect "sync_next" (Hashtbl.find_opt tbl "sync_next") (ints l) | None -> ());
-                     report lineno (!bad = []) (Printf.sprintf "epc-%s %s" label (String.concat ";" (List.rev !bad))) in
-                   check live "live"; check fresh "fresh")
+                     let bad = compare_view dir ev file in
+                     report lineno (bad = []) (Printf.sprintf "epc-%s %s" label (String.concat ";" bad)) in
+                   check live "live"; check fresh "fresh");
+          (* the IMPLEMENTATION model (Beacon/Impl/Epc.v, Impl/Shuffling.v; proved equal to the Spec in Beacon/Refine)
+             against the same two dumps: new_epochs_context vs Go's NewEpochsContext, and the context the model carried
+             along the chain (epc_process_slots / epc_state_transition) vs Go's long-lived context *)
+          (match Hashtbl.find_opt states sid with
+           | None -> ()
+           | Some (f, b) ->
+               let go_failed file =
+                 match read_lines (Filename.concat dir file) with
+                 | l :: _ -> (match split_ws l with "ERR" :: _ -> Some "err" | "PANIC" :: _ -> Some "panic" | _ -> None)
+                 | [] -> None in
+               let against file label (e : epc) =
+                 match go_failed file with
+                 | Some g -> report lineno false (Printf.sprintf "%s impl-ok go-%s" label g)
+                 | None ->
+                     let bad = (let v = epc_to_view e in compare_view dir v file @ compare_impl_extra dir v (epc_pubkeys e) file) in
+                     report lineno (bad = []) (Printf.sprintf "%s %s" label (String.concat ";" bad)) in
+               let fresh_run = lazy (run_epc_impl_fresh env f (bytes_of_string b)) in
+               if want then
+               (match Lazy.force fresh_run with
+                | EROk e -> against fresh "epc-impl-fresh" e
+                | ERFail tag ->
+                    let g = match go_failed fresh with Some g -> g | None -> "ok" in
+                    report lineno (g = tag) (Printf.sprintf "epc-impl-fresh impl-%s go-%s" tag g)
+                | ERBadInput -> report lineno false "epc-impl-fresh impl-model-cannot-decode-state");
+               (match Hashtbl.find_opt impl_epc sid, Hashtbl.find_opt impl_failed sid with
+                | Some e, _ -> against live "epc-impl-live" e
+                | None, Some (l, tag) ->
+                    Hashtbl.remove impl_failed sid;
+                    report lineno false (Printf.sprintf "epc-impl-live impl-%s-at-line-%d go-ok" tag l)
+                | None, None ->
+                    (* no carried value (first state of the chain, after `reload`, or the step that led here did not run
+                       with the live context): Go's context is a fresh one; the model's likewise, and it is the seed from here on *)
+                    (match Lazy.force fresh_run with
+                     | EROk e -> Hashtbl.replace impl_epc sid e; against live "epc-impl-live seeded" e
+                     | _ -> ())))
       | "kickstart" :: hash :: time :: vfile :: post :: _ktags when want ->
           let g2 = string_of_hex "93e02b6052719f607dacd3a088274f65596bd0d09920b61ab5da61bbdc7f5049334cf11213945d57e5ac7d055d042b7e024aa2b2f08f0a91260805272dc51051c6e47ad4fa403b02b4510b647ae3d1770bac0326a805bbefd48056c8c121bdb8" in
           (match run_kickstart_impl env (fun _ -> true) (fun _ -> true) (bytes_of_string g2) (bytes_of_string (string_of_hex hash)) (n_of_decimal time) (bytes_of_string (blob vfile)) with
@@ -329,8 +426,14 @@ let () =
                if parent <> "-" && mparent <> parent then bad := "parent_beacon_root" :: !bad;
                report lineno (!bad = []) ("engine-args " ^ String.concat "," !bad)
            | _ -> ())
+      | "reload" :: id :: _ ->
+          (* Go continues from re-read state bytes with NewEpochsContext: the model's context is re-seeded (lazily) too *)
+          Hashtbl.remove impl_epc id; Hashtbl.remove impl_failed id
       | "reload" :: _ -> ()
       | "cancel" :: _ -> ()
       | _ -> if want then incr nskip)
     lines;
-  Printf.printf "SUMMARY ok=%d mismatch=%d skipped=%d missing_agg=%d\n" !nok !nbad !nskip !missing_agg
+  (* a context operation of the Impl model failed on a step on which Go and the Spec succeeded, and no `epc` record of the
+     post-state followed: say so here (line 0 = not a record of steps.txt) *)
+  Hashtbl.iter (fun id (l, tag) -> if only = None then report 0 false (Printf.sprintf "epc-impl-live impl-%s-at-line-%d go-ok state=%s" tag l id)) impl_failed;
+  Printf.printf "SUMMARY ok=%d mismatch=%d skipped=%d missing_agg=%d impl_epc_steps=%d\n" !nok !nbad !nskip !missing_agg !impl_steps
